@@ -874,7 +874,7 @@ class BlockBase(Base):
                         enable_where_construct_hook = False
                 continue
 
-        except FortranSyntaxError as err:
+        except (FortranSyntaxError, InternalSyntaxError) as err:
             # We hit trouble so clean up the symbol table
             if table_name:
                 SYMBOL_TABLES.exit_scope()
